@@ -191,7 +191,7 @@ async def eval_real(expr, asg, fc=None, hint_keys=()):
     from ahbicht.expressions import InvalidExpressionError
     from ahbicht.expressions.requirement_constraint_expression_evaluation import requirement_constraint_evaluation
     ahb.set_cer_values(rc={conc(k): v for k, v in asg.items()}, fc={conc(k): v for k, v in (fc if fc is not None else {k: True for k in FC_KEYS_POOL}).items()},
-                       hints={conc(k): ahb.hint_text(k) for k in HINT_KEYS_POOL})
+                       hints={conc(k): ahb.hint_text(k) for k in HINT_KEYS_POOL}, inplace=True)
     try:
         r = await requirement_constraint_evaluation(expr)
     except InvalidExpressionError:
